@@ -59,12 +59,15 @@ console.warn = () => {}; // wasm_exec.js warns once per spin when it has lost a 
   const cases = JSON.parse(fs.readFileSync(casesPath, "utf8"));
   const out = [];
   // "reinit" mode: the package's entry function is called again on the SAME module instance (as two parts of one
-  // application would), before the first case and every 97 cases; the exported object is then alternately the newest
+  // application would), before the first case and every 997 cases; the exported object is then alternately the newest
   // one and the very first one
   const reinit = process.argv[5] === "reinit";
   let firstObj = exportsObj, inits = 1, n = 0;
   async function again() {
     try { exportsObj = await require(indexPath)(); inits++; } catch (e) { /* the cases report what follows */ }
+    // the cases below run without ever yielding: give the event loop 300 ms first, so that whatever the entry function
+    // has left pending (a program still being compiled and started, timers) happens before the calls, not after them
+    await new Promise((r) => setTimeout(r, 300));
   }
   // ... and once right after a call that made the first Go program's heap grow (1 MiB string arguments), followed by
   // two seconds in which the event loop runs: whatever the earlier program has scheduled must not disturb the later one
@@ -75,9 +78,13 @@ console.warn = () => {}; // wasm_exec.js warns once per spin when it has lost a 
     await again();
     await pause(2000);
     await again();
+    // ... and once more after a pause longer than the package's own start-up deadline (5 s): timers the earlier starts
+    // have left behind have all fired by then
+    await pause(5300);
+    await again();
   }
   for (const c of cases) {
-    if (reinit && ++n % 97 === 0) await again();
+    if (reinit && ++n % 997 === 0) await again();
     const args = (c.args || []).map(toArg);
     const g = call(globalThis[c.fn], args);
     const x = call((reinit && c.id % 2 ? firstObj : exportsObj)[c.fn], args);
